@@ -1533,3 +1533,66 @@ func ruleExactReads(r *Report) {
 		}
 	}
 }
+
+// ruleSerialFields (C05.serial): serialisation covers every field — WriteTo reads and ReadFrom
+// stores each field of the struct (padding and the derived `chunk` cursor excepted).
+func ruleSerialFields(r *Report) {
+	h := r.Rule("C05.serial", "S", "Buffer and Commit serialisation is field-complete: WriteTo reads every field of the struct and ReadFrom stores every field (Buffer.chunk, the write cursor, is re-derived from the last header)", 4)
+	type spec struct {
+		pkg, typ string
+		skip     map[string]bool
+	}
+	for _, sp := range []spec{{"commit", "Buffer", map[string]bool{"_": true, "chunk": true}}, {"commit", "Commit", map[string]bool{}}} {
+		nt := r.P.NamedType(sp.pkg, sp.typ)
+		if nt == nil {
+			r.Unresolve("type " + sp.pkg + "." + sp.typ)
+			continue
+		}
+		st := nt.Underlying().(*types.Struct)
+		w := r.Anchor("(*" + sp.pkg + "." + sp.typ + ").WriteTo")
+		rd := r.Anchor("(*" + sp.pkg + "." + sp.typ + ").ReadFrom")
+		if w == nil || rd == nil {
+			continue
+		}
+		read := map[string]bool{}
+		withClosures(w, func(f *ssa.Function) {
+			allInstrs(f, func(ins ssa.Instruction) {
+				if fa, ok := ins.(*ssa.FieldAddr); ok {
+					if fr, ok := fieldOf(fa); ok && fr.Struct == sp.pkg+"."+sp.typ {
+						read[fr.Field] = true
+					}
+				}
+			})
+		})
+		stored := map[string]bool{}
+		withClosures(rd, func(f *ssa.Function) {
+			allInstrs(f, func(ins ssa.Instruction) {
+				if s, ok := ins.(*ssa.Store); ok {
+					if fr, ok := fieldOf(s.Addr); ok && fr.Struct == sp.pkg+"."+sp.typ {
+						stored[fr.Field] = true
+					}
+				}
+			})
+		})
+		for i := 0; i < st.NumFields(); i++ {
+			f := st.Field(i).Name()
+			if sp.skip[f] {
+				continue
+			}
+			h.Check(read[f], sp.typ+".WriteTo/"+f, r.P.Pos(w.Pos()), "written", sp.typ+".WriteTo never reads field "+f+": it is not part of the serialised form")
+			h.Check(stored[f], sp.typ+".ReadFrom/"+f, r.P.Pos(rd.Pos()), "restored", sp.typ+".ReadFrom never stores field "+f+": it is lost in a round trip")
+		}
+		if sp.typ == "Buffer" {
+			// the write cursor is re-derived from the last header
+			ok := false
+			allInstrs(rd, func(ins ssa.Instruction) {
+				if s, isSt := ins.(*ssa.Store); isSt {
+					if fr, isF := fieldOf(s.Addr); isF && fr.Struct == "commit.Buffer" && fr.Field == "chunk" {
+						ok = true
+					}
+				}
+			})
+			h.Check(ok, "Buffer.ReadFrom/chunk", r.P.Pos(rd.Pos()), "cursor := last header's block", "Buffer.ReadFrom does not re-derive the current block from the last header: the next append for that block writes a duplicate header")
+		}
+	}
+}
